@@ -86,8 +86,8 @@ func (s *c27Sink) Receive(ctx *ReceiveContext) {
 				}
 			}
 		}
-	case "m": // m|caller|target|seq
-		if len(parts) != 4 {
+	case "m": // m|caller|target|seq[|padding]
+		if len(parts) != 4 && len(parts) != 5 {
 			led.garbage.Add(1)
 			return
 		}
@@ -123,6 +123,7 @@ type c27Script struct {
 	WinLen    int
 	Pending   int  // close/stop scripts: messages queued behind the stalled first batch
 	ActorFrom bool // the sending PID is a spawned actor of A instead of A's NoSender
+	BigEvery  int  // > 0: every BigEvery-th message of a caller carries a 70-130 KiB payload
 }
 
 func (s c27Script) String() string {
@@ -131,8 +132,8 @@ func (s c27Script) String() string {
 		fk = append(fk, fmt.Sprintf("%s@%d", v, k))
 	}
 	sort.Strings(fk)
-	return fmt.Sprintf("%s callers=%d targets=%d n=%d pace=%d faults=[%s] win=%d+%d pending=%d actorfrom=%v",
-		s.Kind, s.Callers, s.Targets, s.PerCaller, s.Pace, strings.Join(fk, ","), s.WinStart, s.WinLen, s.Pending, s.ActorFrom)
+	return fmt.Sprintf("%s callers=%d targets=%d n=%d pace=%d faults=[%s] win=%d+%d pending=%d actorfrom=%v bigevery=%d",
+		s.Kind, s.Callers, s.Targets, s.PerCaller, s.Pace, strings.Join(fk, ","), s.WinStart, s.WinLen, s.Pending, s.ActorFrom, s.BigEvery)
 }
 
 type c27Obs struct {
@@ -169,6 +170,15 @@ func c27GenScript(rng *rand.Rand, i int, maxTotal int) c27Script {
 	if rng.Intn(4) == 0 {
 		s.Kind = kinds[rng.Intn(len(kinds))]
 	}
+	if (s.Kind == "clean" || s.Kind == "kills") && rng.Intn(2) == 0 {
+		s.BigEvery = []int{5, 11, 37}[rng.Intn(3)]
+		if s.PerCaller > 400 {
+			s.PerCaller = 400
+		}
+		for s.Callers*s.PerCaller/s.BigEvery > 300 { // at most ~30 MB of large payloads per case
+			s.BigEvery *= 2
+		}
+	}
 	switch s.Kind {
 	case "kills":
 		s.Faults = map[int64]string{}
@@ -199,8 +209,21 @@ func c27GenScript(rng *rand.Rand, i int, maxTotal int) c27Script {
 	return s
 }
 
-func c27Text(tag string, caller, target, seq int) string {
-	return tag + "|m|" + strconv.Itoa(caller) + "|" + strconv.Itoa(target) + "|" + strconv.Itoa(seq)
+func c27Text(tag string, caller, target, seq, pad int) string {
+	t := tag + "|m|" + strconv.Itoa(caller) + "|" + strconv.Itoa(target) + "|" + strconv.Itoa(seq)
+	if pad > 0 {
+		t += "|" + strings.Repeat("x", pad)
+	}
+	return t
+}
+
+// padFor makes some messages of a caller's sequence large (70-130 KiB): a transport
+// that treats payload sizes differently must still keep one sender's order.
+func (s c27Script) padFor(caller, seq int) int {
+	if s.BigEvery <= 0 || seq == 0 || (seq+caller)%s.BigEvery != 0 {
+		return 0
+	}
+	return 70*1024 + ((seq*7919+caller*104729)%60)*1024
 }
 
 // c27Env is the pair of nodes a batch reuses across its cases: node B (behind the
@@ -296,14 +319,14 @@ func c27RunCase(e *c27Env, s c27Script) (obs c27Obs) {
 	var acceptedN atomic.Int64
 	textOf := func(i int) string {
 		caller, seq := i/s.PerCaller, i%s.PerCaller
-		return c27Text(tag, caller, rng0(caller, s.Targets)(seq), seq)
+		return c27Text(tag, caller, rng0(caller, s.Targets)(seq), seq, s.padFor(caller, seq))
 	}
 
 	send := func(caller int, cctx func() (context.Context, context.CancelFunc)) {
 		tgt := rng0(caller, s.Targets)
 		for seq := 0; seq < s.PerCaller; seq++ {
 			target := tgt(seq)
-			msg := &testpb.TestLog{Text: c27Text(tag, caller, target, seq)}
+			msg := &testpb.TestLog{Text: c27Text(tag, caller, target, seq, s.padFor(caller, seq))}
 			sctx, cancel := cctx()
 			err := from.Tell(sctx, remotes[target], msg)
 			cancel()
